@@ -246,6 +246,9 @@ func props() []engine.AnyProp {
 		ps = append(ps, baseStratProp(st))
 	}
 	for _, st := range sreg.Extra() {
+		if st.TerminationOnly {
+			continue
+		}
 		ps = append(ps, baseStratProp(st))
 	}
 	return append(ps, treeProp())
